@@ -24,7 +24,7 @@ SetOf(s) == {s[i] : i \in DOMAIN s}
 VARIABLES ls, disk, l, bad
 
 D == INSTANCE Dhcp4 WITH Macs <- SetOf(Hdr.macs), Pool <- SetOf(Hdr.pool), Outs <- SetOf(Hdr.outs),
-                         GW <- Hdr.gw, Far <- Hdr.far, ReqHosts <- SetOf(Hdr.reqhosts),
+                         GW <- Hdr.gw, Far <- Hdr.far, ReqHosts <- SetOf(Hdr.reqhosts), BadHosts <- SetOf(Hdr.badhosts),
                          StaticHosts <- SetOf(Hdr.stathosts), MaxStatic <- 1000000,
                          LeaseT <- Hdr.leaset
 
